@@ -186,7 +186,10 @@ class VSModel:
             in_iter = any(ev[0] == "loop-iter" and ev[2] == self.loop_base for ev in evs)
             after = [ev for ev in evs if ev[0] == "loop" and ev[2] == self.loop_base]
             if after and self.loop_event is None:
-                self.loop_event = after[0]
+                # (several loops may run over the same map - a pre-computed filter, a report: the
+                # per-entry loop is the one that inserts into the counted set)
+                touching = [ev for ev in after if self.G is not None and any(_touches(e2, self.G) for bp in ev[4] for e2, _d2 in flatten_events(bp[2]))]
+                self.loop_event = (touching or after)[0]
             if p.kind == "return":
                 (self.returns if after and not in_iter else self.early_returns).append(p)
             elif in_iter:
